@@ -975,6 +975,9 @@ func gsoSplit(in []byte, hdr virtioNetHdr, outBuffs [][]byte, sizes []int, outOf
 		lenForPseudo := uint16(transportHeaderLen + segmentDataLen)
 		transportCSumNoFold := pseudoHeaderChecksumNoFold(protocol, in[srcAddrOffset:srcAddrOffset+addrLen], in[srcAddrOffset+addrLen:srcAddrOffset+addrLen*2], lenForPseudo)
 		transportCSum := ^checksum(out[hdr.csumStart:totalLen], transportCSumNoFold)
+		if protocol == unix.IPPROTO_UDP && transportCSum == 0 {
+			transportCSum = 0xffff // RFC 768: a computed checksum of zero is transmitted as all ones
+		}
 		binary.BigEndian.PutUint16(out[hdr.csumStart+hdr.csumOffset:], transportCSum)
 
 		nextSegmentDataAt += int(hdr.gsoSize)
@@ -988,6 +991,10 @@ func gsoNoneChecksum(in []byte, cSumStart, cSumOffset uint16) error {
 	// checksum we compute. This is typically the pseudo-header checksum.
 	initial := binary.BigEndian.Uint16(in[cSumAt:])
 	in[cSumAt], in[cSumAt+1] = 0, 0
-	binary.BigEndian.PutUint16(in[cSumAt:], ^checksum(in[cSumStart:], uint64(initial)))
+	cSum := ^checksum(in[cSumStart:], uint64(initial))
+	if cSum == 0 {
+		cSum = 0xffff // like the kernel's CSUM_MANGLED_0: required for UDP, equivalent for TCP
+	}
+	binary.BigEndian.PutUint16(in[cSumAt:], cSum)
 	return nil
 }
